@@ -6,15 +6,13 @@ import F1Verif.Generated.Facts
 import F1Verif.Expected
 namespace F1.Props.FactsC01
 
--- (average_Add, average_drain, average_Update, average_Reset: re-proved semantically on the regenerated MiniGo programs, see Props/Refine*.lean)
+-- (average_Add, average_drain, average_Update, average_Reset, active_Run, active_RecordDropped: re-proved semantically on the regenerated MiniGo programs, see Props/Refine*.lean)
 
 theorem fact_average_CollectLifetime : F1.Generated.skel_average_CollectLifetime = F1.Expected.skel_average_CollectLifetime := by rfl
 theorem fact_average_Record : F1.Generated.skel_average_Record = F1.Expected.skel_average_Record := by rfl
 theorem fact_stats_Record : F1.Generated.skel_stats_Record = F1.Expected.skel_stats_Record := by rfl
 theorem fact_stats_Snapshot : F1.Generated.skel_stats_Snapshot = F1.Expected.skel_stats_Snapshot := by rfl
 theorem fact_stats_Total : F1.Generated.skel_stats_Total = F1.Expected.skel_stats_Total := by rfl
-theorem fact_active_Run : F1.Generated.skel_active_Run = F1.Expected.skel_active_Run := by rfl
-theorem fact_active_RecordDropped : F1.Generated.skel_active_RecordDropped = F1.Expected.skel_active_RecordDropped := by rfl
 theorem fact_result_SnapshotProgress : F1.Generated.skel_result_SnapshotProgress = F1.Expected.skel_result_SnapshotProgress := by rfl
 theorem fact_result_GetTotals : F1.Generated.skel_result_GetTotals = F1.Expected.skel_result_GetTotals := by rfl
 theorem fact_metrics_RecordIterationResult : F1.Generated.skel_metrics_RecordIterationResult = F1.Expected.skel_metrics_RecordIterationResult := by rfl
